@@ -8,6 +8,7 @@ package grid
 // client abort after every prefix.
 
 import (
+	"runtime/debug"
 	"os"
 	"bytes"
 	"context"
@@ -620,6 +621,11 @@ func TestC14(t *testing.T) {
 		c14Space(rep, mode)
 		return
 	}
+	if part == "aborts" {
+		f.close()
+		c14Aborts(rep, mode)
+		return
+	}
 	switch part {
 	case "digests":
 		e.grpcDigestCells()
@@ -760,5 +766,114 @@ func c14Space(rep *vlib.Report, mode string) {
 			}
 		}
 		f.close()
+	}
+}
+
+// c14Aborts: downloads the client walks away from. Every streaming read path
+// (ByteStream.Read blobs/ and compressed-blobs/zstd/, HTTP GET with and
+// without Accept-Encoding: zstd) x blob sizes (one chunk, several chunks) x
+// the point at which the client stops (before reading anything, after the
+// first piece) x how it stops (cancel / close the connection). The garbage
+// collector is switched off for the duration, so a file that is only ever
+// closed by its finalizer counts as left behind. After every cell: no handler
+// goroutine, no reservation, no descriptor into the cache directory.
+func c14Aborts(rep *vlib.Report, mode string) {
+	old := debug.SetGCPercent(-1)
+	defer debug.SetGCPercent(old)
+	f := newFx(fxOpts{mode: mode, validateAC: true})
+	defer f.close()
+	e := &c14Env{rep: rep, f: f, mode: mode}
+	srv := httptest.NewServer(f.mux)
+	defer srv.Close()
+	type blob struct {
+		hash string
+		n    int
+	}
+	var blobs []blob
+	for _, n := range []int{300 << 10, 3<<20 + 17} {
+		d := vlib.Bytes(fmt.Sprintf("c14/aborts/%s/%d", mode, n), n, false)
+		h := vlib.Sha(d)
+		if r := f.upload(upReq{path: "bs", hash: h, size: int64(n), wire: d, abortAfter: -1, msgSize: 1 << 20}); !r.ok {
+			rep.BrokenHarness("setup upload: %s", r.status)
+			return
+		}
+		blobs = append(blobs, blob{h, n})
+	}
+	f.settle()
+	time.Sleep(50 * time.Millisecond)
+	e.baseG, _ = handlerGoroutines()
+	baseFD, _ := fdsInto(f.dir)
+	for _, b := range blobs {
+		for _, path := range []string{"bs", "bs_zstd", "http", "http_zstd"} {
+			for _, stopAfter := range []string{"nothing", "first-piece"} {
+				for _, offset := range []int64{0, 1} {
+					if offset != 0 && !strings.HasPrefix(path, "bs") {
+						continue
+					}
+					id := fmt.Sprintf("mode=%s path=%s blob=%d bytes offset=%d client stops after %s", mode, path, b.n, offset, stopAfter)
+					e.run("aborts", id, false, func(ctx context.Context) (bool, string) {
+						switch path {
+						case "bs", "bs_zstd":
+							name := fmt.Sprintf("blobs/%s/%d", b.hash, b.n)
+							if path == "bs_zstd" {
+								name = fmt.Sprintf("compressed-blobs/zstd/%s/%d", b.hash, b.n)
+							}
+							cctx, cancel := context.WithCancel(ctx)
+							st, err := f.bs.Read(cctx, &bytestream.ReadRequest{ResourceName: name, ReadOffset: offset})
+							if err != nil {
+								cancel()
+								return false, grpcStatus(err)
+							}
+							if stopAfter == "first-piece" {
+								if _, err := st.Recv(); err != nil {
+									cancel()
+									return false, grpcStatus(err)
+								}
+							}
+							cancel()
+							return true, "aborted"
+						default:
+							req, _ := http.NewRequestWithContext(ctx, http.MethodGet, srv.URL+"/cas/"+b.hash, nil)
+							tr := &http.Transport{DisableCompression: true}
+							defer tr.CloseIdleConnections()
+							if path == "http_zstd" {
+								req.Header.Set("Accept-Encoding", "zstd")
+							}
+							resp, err := tr.RoundTrip(req)
+							if err != nil {
+								return false, err.Error()
+							}
+							if stopAfter == "first-piece" {
+								buf := make([]byte, 1000)
+								_, _ = io.ReadFull(resp.Body, buf)
+							}
+							_ = resp.Body.Close()
+							return true, "aborted"
+						}
+					})
+					e.leakCheckNoGC("aborts", id)
+					if ok := waitFor(func() bool { k, _ := fdsInto(f.dir); return k <= baseFD }); !ok {
+						k, first := fdsInto(f.dir)
+						rep.Violate("C14 aborts download left an open file behind", fmt.Sprintf("%s: %d descriptors into the cache directory (before: %d) with the garbage collector off, e.g. %s", id, k, baseFD, first), nil)
+						baseFD = k
+					}
+				}
+			}
+		}
+	}
+}
+
+// leakCheckNoGC: goroutines and reservations only (no forced collection).
+func (e *c14Env) leakCheckNoGC(cls, id string) {
+	ok := waitFor(func() bool {
+		g, _ := handlerGoroutines()
+		_, reserved, _, _ := e.f.cache.Stats()
+		return g <= e.baseG && reserved == 0 && e.f.active.Load() == 0
+	})
+	if !ok {
+		g, stack := handlerGoroutines()
+		_, reserved, _, _ := e.f.cache.Stats()
+		e.rep.Violate("C14 "+cls+" request left a goroutine or a reservation behind", fmt.Sprintf("after %s: %d goroutines still inside repository request code (baseline %d), reserved=%d; one of them:\n%s", id, g, e.baseG, reserved, stack), nil)
+		e.baseG = g
 	}
 }
